@@ -130,6 +130,10 @@ def vstr(v, depth=0):
         return "!%s" % vstr(v[1], d)
     if k == "upd":
         return "%s{%s: %s}" % (vstr(v[1], d), v[2], vstr(v[3], d))
+    if k in ("cvec", "cset", "citer"):
+        return "%s[%s]" % (k[1:], ", ".join(vstr(x, d) for x in v[1]))
+    if k == "cmap":
+        return "map{%s}" % ", ".join("%s: %s" % (vstr(a, d), vstr(b, d)) for a, b in v[1])
     return str(v)
 
 
@@ -154,6 +158,11 @@ def walk_value(v):
             stack.extend([x[2], x[3]])
         elif k == "upd":
             stack.extend([x[1], x[3]])
+        elif k in ("cvec", "cset", "citer"):
+            stack.extend(x[1])
+        elif k == "cmap":
+            for kk, vv in x[1]:
+                stack.extend([kk, vv])
 
 
 def mentions(v, pred):
